@@ -27,7 +27,7 @@ from vf.core import MachineryError, exc_record
 from vf.par import pmap
 
 META = {
-    "ready": False,
+    "ready": True,
     "category": "model_checking",
     "technique": "TLA+ spec (ClassTreeCopy.tla): value semantics vs. pointer semantics with explicit parent pointers and "
                  "deepcopy-hook sources, model-checked by TLC (intended / as-built); every transition of the intended state "
@@ -307,15 +307,19 @@ def run(ctx):
     variant = _variant()
     ctx.extra["flatten_copies_requested_class"] = bool(variant)
     # ---- 1. TLC: property on the spec -----------------------------------------------------------------
-    for cfg in ("ClassTreeCopy_intended.cfg", "ClassTreeCopy_intended_topcopy.cfg"):
+    # quick: the variant that matches how tree.flatten of this tree looks the class up; thorough: both, plus the
+    # explicit as-built counterexample run (in quick the non-empty DEV log below is the evidence that as-built deviates)
+    cfgs = ("ClassTreeCopy_intended.cfg", "ClassTreeCopy_intended_topcopy.cfg") if thorough else ("ClassTreeCopy_intended%s.cfg" % variant,)
+    for cfg in cfgs:
         r = tlc.run("ClassTreeCopy", cfg, workers=min(procs, 8))
         ctx.add_tlc(r, "intended: PointerSemanticsIsValueSemantics, ParentClosed, NoRaise, Independence, CopyFaithful; histories <= 4, 3 trees")
         if r.violated:
             raise MachineryError("intended spec violates %s\n%s" % (r.violated, r.cex[-2000:]))
-    r = tlc.run("ClassTreeCopy", "ClassTreeCopy_asbuilt.cfg", workers=1)
-    ctx.add_tlc(r, "as-built: counterexample expected")
-    if "PointerSemanticsIsValueSemantics" not in r.violated:
-        raise MachineryError("as-built spec does not violate the property - the switches are vacuous")
+    if thorough:
+        r = tlc.run("ClassTreeCopy", "ClassTreeCopy_asbuilt.cfg", workers=1)
+        ctx.add_tlc(r, "as-built: counterexample expected")
+        if "PointerSemanticsIsValueSemantics" not in r.violated:
+            raise MachineryError("as-built spec does not violate the property - the switches are vacuous")
     # ---- 2. histories -----------------------------------------------------------------------------------
     rd = tlc.run("ClassTreeCopy", "ClassTreeCopy_asbuilt_dev%s.cfg" % variant, workers=1)
     ctx.add_tlc(rd, "as-built: every shortest history (<= 3 steps) after which the pointer semantics first deviates (DEV log)")
@@ -332,13 +336,13 @@ def run(ctx):
     dev_ev = eval_histories(ctx, dev_hist, "ClassTreeCopyTrace_intended.cfg", "expected observations for the %d directed histories" % len(dev_hist))
     rg = tlc.run("ClassTreeCopy", "ClassTreeCopy_graph3s.cfg", workers=1, timeout=1800)
     ctx.add_tlc(rg, "intended state graph, 3 trees, small edit universe, TR-log")
-    r2s = tlc.run("ClassTreeCopy", "ClassTreeCopy_graph2s.cfg", workers=1, timeout=1800)
-    ctx.add_tlc(r2s, "intended state graph, 2 trees, small edit universe, TR-log")
-    if rg.violated or r2s.violated:
-        raise MachineryError("graph run violates %s %s" % (rg.violated, r2s.violated))
+    if rg.violated:
+        raise MachineryError("graph run violates %s" % rg.violated)
+    # the 2-tree graph is the sub-graph of the 3-tree graph on states with at most two trees
+    two = [e for e in rg.tr() if len(e["dst"]["val"]) <= 2]
     # (name, graph, share of the tour that is replayed): quick replays the complete 2-tree graph and a seeded
     # quarter of the 3-tree tour; thorough replays everything
-    graphs = [("g2s", graph.Graph(r2s.tr()), 1.0), ("g3s", graph.Graph(rg.tr()), 1.0 if thorough else 0.25)]
+    graphs = [("g2s", graph.Graph(two), 1.0), ("g3s", graph.Graph(rg.tr()), 1.0 if thorough else 0.25)]
     if thorough:
         r2 = tlc.run("ClassTreeCopy", "ClassTreeCopy_graph2.cfg", workers=1, timeout=1800)
         ctx.add_tlc(r2, "intended state graph, 2 trees, full edit universe, TR-log")
